@@ -103,12 +103,77 @@ func (s *capSub) SetVerifier(f func(context.Context, *vk.H) error) error {
 }
 func (s *capSub) Subscribe() (header.Subscription[*vk.H], error) { return nil, errors.New("unused") }
 
+// lazyStore decorates the real store: while a drainer thread is attached, Append only queues the
+// caller's slice (no copy, exactly like the real store's write queue) and the controlled drainer
+// hands it to the real store at a scheduling point of its own. This puts the asynchronous
+// consumption of appended slices by the store's flush loop under the explorer's control.
+type lazyStore struct {
+	*store.Store[*vk.H]
+	mu     gosync.Mutex
+	q      [][]*vk.H
+	wake   chan struct{}
+	active bool
+}
+
+func (l *lazyStore) Append(ctx context.Context, hs ...*vk.H) error {
+	l.mu.Lock()
+	if !l.active {
+		l.mu.Unlock()
+		return l.Store.Append(ctx, hs...)
+	}
+	l.q = append(l.q, hs)
+	l.mu.Unlock()
+	select {
+	case l.wake <- struct{}{}:
+	default:
+	}
+	return nil
+}
+
+// drain is the body of the controlled drainer thread.
+func (l *lazyStore) drain() {
+	for {
+		if _, ok := vrt.Recv2(l.wake); !ok {
+			return
+		}
+		for {
+			l.mu.Lock()
+			if len(l.q) == 0 {
+				l.mu.Unlock()
+				break
+			}
+			hs := l.q[0]
+			l.q = l.q[1:]
+			l.mu.Unlock()
+			vrt.Point("store.apply", nil)
+			_ = l.Store.Append(context.Background(), hs...)
+		}
+	}
+}
+
+// flushAll applies everything still queued (free mode, after the run).
+func (l *lazyStore) flushAll() {
+	l.mu.Lock()
+	q := l.q
+	l.q = nil
+	wasActive := l.active
+	l.active = false
+	l.mu.Unlock()
+	if wasActive {
+		close(l.wake) // ends the drainer thread
+	}
+	for _, hs := range q {
+		_ = l.Store.Append(context.Background(), hs...)
+	}
+}
+
 // World: real uninstrumented store (its flush loop runs at quiescence), instrumented Syncer.
 type World struct {
 	Cfg WCfg
 	C   vk.Chain
 	DS  *vk.LogDS
 	St  *store.Store[*vk.H]
+	LS  *lazyStore
 	G   *getter
 	Sub *capSub
 	Sy  *hsync.Syncer[*vk.H]
@@ -143,7 +208,8 @@ func NewWorld(cfg WCfg, batch int) (*World, error) {
 	_ = st.Append(bg, c.Slice(1, cfg.S)...)
 	vk.Settle()
 	_ = st.Sync(bg)
-	sy, err := hsync.NewSyncer[*vk.H](w.G, st, w.Sub,
+	w.LS = &lazyStore{Store: st, wake: make(chan struct{}, 1)}
+	sy, err := hsync.NewSyncer[*vk.H](w.G, w.LS, w.Sub,
 		hsync.WithBlockTime(10*time.Second), hsync.WithTrustingPeriod(time.Hour), hsync.WithSyncFromHeight(1))
 	if err != nil {
 		return nil, err
@@ -161,6 +227,7 @@ func NewWorld(cfg WCfg, batch int) (*World, error) {
 }
 
 func (w *World) Quiesce() {
+	w.LS.flushAll()
 	vk.Settle()
 	ctx, cancel := context.WithTimeout(context.Background(), time.Minute)
 	_ = w.St.Sync(ctx)
@@ -169,6 +236,7 @@ func (w *World) Quiesce() {
 }
 
 func (w *World) Close() {
+	w.LS.flushAll()
 	_ = w.Sy.Stop(context.Background())
 	vk.Settle()
 	ctx, cancel := context.WithTimeout(context.Background(), time.Minute)
@@ -217,5 +285,33 @@ func (e *Env) Deliver(name string, h *vk.H) {
 		d := delivery{Name: name, H: h, Err: err, Order: e.order}
 		e.mu.Unlock()
 		e.Note("deliver:"+name, d)
+	})
+}
+
+// AsyncStore attaches the controlled drainer: from now on appended slices reach the real store only
+// when the explorer schedules the drainer thread.
+func (e *Env) AsyncStore() {
+	e.W.LS.mu.Lock()
+	e.W.LS.active = true
+	e.W.LS.mu.Unlock()
+	vrt.Go("store-drainer", e.W.LS.drain)
+}
+
+// DeliverSeq delivers several headers one after the other from one thread.
+func (e *Env) DeliverSeq(thread string, names []string, hs []*vk.H) {
+	e.Thread(thread, func() {
+		e.W.Sub.mu.Lock()
+		fn := e.W.Sub.fn
+		e.W.Sub.mu.Unlock()
+		for i, h := range hs {
+			ctx, cancel := context.WithTimeout(context.Background(), 10*time.Minute)
+			err := fn(ctx, h)
+			cancel()
+			e.mu.Lock()
+			e.order++
+			d := delivery{Name: names[i], H: h, Err: err, Order: e.order}
+			e.mu.Unlock()
+			e.Note("deliver:"+names[i], d)
+		}
 	})
 }
